@@ -7702,6 +7702,10 @@ jdf_generate_code_iterate_successors_or_predecessors(const jdf_t *jdf,
     string_arena_t *sa_tmp_displ_r  = string_arena_new(256);
     string_arena_t *sa_tmp_type_r = string_arena_new(256);
     string_arena_t *sa_temp_r       = string_arena_new(1024);
+    /* Local (reshape) datatype of the current dependency and of the last dependency
+     * of the same flow for which code was emitted. */
+    string_arena_t *sa_cur_local  = string_arena_new(256);
+    string_arena_t *sa_last_local = string_arena_new(256);
 
     assignment_info_t ai;
     expr_info_t info = EMPTY_EXPR_INFO;
@@ -7756,6 +7760,7 @@ jdf_generate_code_iterate_successors_or_predecessors(const jdf_t *jdf,
         string_arena_init(sa_coutput);
         string_arena_init(sa_deps);
         string_arena_init(sa_datatype);
+        string_arena_init(sa_last_local);
         nb_open_ldef = 0;
 
         string_arena_add_string(sa_coutput,
@@ -7855,6 +7860,20 @@ jdf_generate_code_iterate_successors_or_predecessors(const jdf_t *jdf,
                 assert( dl->datatype_remote.count != NULL );
                 string_arena_add_string(sa_tmp_count_r, "%s", dump_expr((void**)dl->datatype_remote.count, &info));
                 string_arena_add_string(sa_tmp_displ_r, "%s", dump_expr((void**)dl->datatype_remote.displ, &info));
+            }
+
+            /* The reshape promise travels from one dependency to the next through
+             * data.data_future so that successors with the same reshape type share it
+             * (see parsec_create_reshape_promise). When the local datatype differs from
+             * the one of the previous dependency the promise must not be reused.
+             */
+            string_arena_init(sa_cur_local);
+            string_arena_add_string(sa_cur_local, "%s|%s|%s|%s",
+                                    string_arena_get_string(sa_tmp_arena), string_arena_get_string(sa_tmp_type),
+                                    string_arena_get_string(sa_tmp_count), string_arena_get_string(sa_tmp_displ));
+            if( (0 != strlen(string_arena_get_string(sa_last_local))) &&
+                strcmp(string_arena_get_string(sa_last_local), string_arena_get_string(sa_cur_local)) ) {
+                string_arena_add_string(sa_datatype, "  data.data_future  = NULL;  /* reshape type changed */\n");
             }
 
             string_arena_add_string(sa_datatype,"  if (action_mask & (PARSEC_ACTION_RESHAPE_ON_RELEASE | PARSEC_ACTION_RESHAPE_REMOTE_ON_RELEASE | PARSEC_ACTION_SEND_REMOTE_DEPS)) {\n");
@@ -8018,6 +8037,10 @@ jdf_generate_code_iterate_successors_or_predecessors(const jdf_t *jdf,
                 break;
             }
             /* Dump the previous dependencies */
+            if( strlen(string_arena_get_string(sa_deps)) ) {
+                string_arena_init(sa_last_local);
+                string_arena_add_string(sa_last_local, "%s", string_arena_get_string(sa_cur_local));
+            }
             OUTPUT_PREV_DEPS((1U << dl->dep_index), sa_datatype, sa_deps);
 
             while(nb_open_ldef > 0) {
@@ -8047,6 +8070,8 @@ jdf_generate_code_iterate_successors_or_predecessors(const jdf_t *jdf,
     string_arena_free(sa_coutput);
     string_arena_free(sa_deps);
     string_arena_free(sa_datatype);
+    string_arena_free(sa_cur_local);
+    string_arena_free(sa_last_local);
     string_arena_free(sa_tmp_arena);
     string_arena_free(sa_tmp_count);
     string_arena_free(sa_tmp_displ);
